@@ -130,6 +130,30 @@ def run(shard, ctx):
             attempt(ctx, "init_cdb(%02Xh)" % v, "opcode.init_cdb", ("OpcodeException",), lambda: SCSICommand.init_cdb(oc), None, {"opcode": v}, valid=not invalid)
             attempt(ctx, "TestUnitReady(%02Xh)" % v, "opcode.constructor", ("OpcodeException",), lambda: TestUnitReady(oc), None, {"opcode": v}, valid=not invalid)
         ctx.count("opcode_values", 256)
+        # every command class (its constructor, its class-level encoder, and its facade method on a caller-built table that
+        # assigns the code) with every operation code that has no fixed CDB length
+        from pyscsi.utils.enum import Enum
+
+        bad_values = [v for v in range(256) if O.group_length(v) is None]
+        for c in S.COMMANDS.values():
+            cls = c.load()
+            std = c.opcode_obj(c.sets[0])
+            sa = {k: getattr(std.serviceaction, k) for k in std.serviceaction.keys}
+            a = DO.GEN[c.custom](rng)[0] if c.custom else harness.random_args(c, rng, cap=2048)
+            kwc = harness.call_kwargs(c, DO.fresh(a) if c.custom else a)
+            tblkey = next(k for k in getattr(E, c.sets[0]).keys if getattr(getattr(E, c.sets[0]), k) is std)
+            for v in bad_values:
+                oc = OpCode(std.name, v, sa)
+                wit = {"cmd": c.name, "opcode": v}
+                ctx.case(("opcode-class", c.name, v), True)
+                attempt(ctx, "%s(%02Xh)" % (c.name, v), "opcode.class_constructor.%s" % c.name, ("OpcodeException",), lambda: cls(oc, **(DO.fresh(kwc) if c.custom else dict(kwc))), None, wit)
+                attempt(ctx, "%s.marshall_cdb(opcode=%02Xh)" % (c.name, v), "opcode.class_encoder.%s" % c.name, ("OpcodeException",), lambda: cls.marshall_cdb({"opcode": v}), None, wit)
+                if c.facade and v % 4 == 0:
+                    tbl = Enum({k: (oc if k == tblkey else getattr(getattr(E, c.sets[0]), k)) for k in getattr(E, c.sets[0]).keys})
+                    dev = harness.Recorder(tbl)
+                    sfac = harness.make_facade(dev, 512)
+                    attempt(ctx, "%s on a table assigning %02Xh" % (c.facade, v), "opcode.facade.%s" % c.name, ("OpcodeException",), lambda: harness.facade_call(c, sfac, DO.fresh(a) if c.custom else dict(a)), dev, wit)
+            ctx.count("classes_tried_with_every_lengthless_opcode")
         # one OpCode object whose value is changed between uses (OpCode.value has a public setter)
         for v1 in (0x00, 0x28, 0x88, 0xA8, 0x12):
             for v2 in range(256):
@@ -179,7 +203,7 @@ def run(shard, ctx):
             for i in range(n * 3 + len(forced)):
                 a, _exp = DO.GEN[c.custom](rng, ("counts", rng.choice([1, 2]), rng.choice([1, 2]), 0))
                 kw = a["_kwargs"]
-                mut = i % 10
+                mut = i % 11
                 want = ("ValueError",)
                 # unknown keys of every look (plain, underscored, dunder, near-misses) holding every kind of value
                 bogus_name = rng.choice(names_)
@@ -205,6 +229,20 @@ def run(shard, ctx):
                     code = rng.choice([x for x in range(256) if x not in seg_codes] + ["no such segment"])
                     rng.choice(kw["segment_descriptor_list"])["descriptor_type_code"] = code
                     klass = "xcopy%d.segment_code_outside_table" % spc
+                elif mut == 10:
+                    # a peripheral device type outside the table of the standard the class implements, with the optional device
+                    # type specific parameters given, empty, or left out
+                    known = set(tabl._device_type_codes)
+                    code = rng.choice([x for x in range(32) if x not in known] * 3 + [32, 0x7F, 255, 256, -1, "no such device", "block device", 2.5])
+                    d = rng.choice(kw[lk])
+                    d["peripheral_device_type"] = code
+                    how = rng.choice(["given", "empty", "absent"])
+                    if how == "empty":
+                        d["device_type_specific_parameters"] = {}
+                    elif how == "absent":
+                        d.pop("device_type_specific_parameters", None)
+                    ctx.add("device_type_outside_table", "%s:%s" % (code if not isinstance(code, int) or code > 31 or code < 0 else "0..31", how))
+                    klass = "xcopy%d.cscd_device_type_outside_table" % spc
                 elif mut == 4:
                     rng.choice(kw[lk])["lu_id_type"] = rng.choice([1, 2, 3])
                     klass = "xcopy%d.lu_id_type" % spc
